@@ -747,6 +747,57 @@ func checkReloadUsesEquals(w *World, r *Report) {
 				okR := replaced != "" && loaded != "" && strings.HasSuffix(replaced, loaded) && strings.Contains(eqLit.Atom.L, "*"+loaded)
 				r.Check(okR, "reload.on-change", fname+": Equals false → ReplaceDefinitions(new)", w.InstrPos(eqLit.At),
 					"on the unequal edge the freshly loaded definitions are passed to ReplaceDefinitions", "on the unequal edge ReplaceDefinitions is not called with the freshly loaded definitions (replaced="+replaced+", loaded="+loaded+", compared="+eqLit.Atom.L+"): a detected edit is not applied")
+				// the baseline of the comparison is a variable that outlives this invocation and
+				// is set to the applied definitions on this path (else the next comparison is
+				// made against stale definitions and a later edit can be classified as no change)
+				baseOK, baseWhy := false, "the comparison's other operand is not identified"
+				if iff, ok := eqLit.At.(*ssa.If); ok {
+					cond := w.Resolve(iff.Cond)
+					if u, ok := cond.(*ssa.UnOp); ok && u.Op.String() == "!" {
+						cond = w.Resolve(u.X)
+					}
+					if call, ok := cond.(*ssa.Call); ok && len(call.Call.Args) == 2 {
+						for _, a := range call.Call.Args {
+							if strings.Contains(w.AP(a), loaded) {
+								continue
+							}
+							base := w.Resolve(a)
+							// a value receiver/argument is the dereference of the pointer that is kept
+							if d, ok := base.(*ssa.UnOp); ok && d.Op.String() == "*" {
+								if _, isStruct := d.Type().Underlying().(*types.Struct); isStruct {
+									base = w.Resolve(d.X)
+								}
+							}
+							ld, isLoad := base.(*ssa.UnOp)
+							if _, isCall := base.(*ssa.Call); isCall {
+								baseOK, baseWhy = true, "the baseline is asked from a function at every reload"
+								break
+							}
+							if !isLoad || ld.Op.String() != "*" {
+								baseWhy = "the freshly loaded definitions are compared with " + w.AP(a) + ", a value fixed when this function was entered: after the first applied reload every comparison is made against stale definitions"
+								break
+							}
+							addr := w.resolveAddr(ld.X)
+							if al, ok := addr.(*ssa.Alloc); ok && al.Parent() == fn {
+								baseWhy = "the baseline " + w.AP(a) + " is a variable local to one invocation"
+								break
+							}
+							loc := w.apAddr(ld.X)
+							stored := false
+							for _, e := range p.Effects {
+								if e.Kind == "store" && e.Target == loc && e.Val == loaded {
+									stored = true
+								}
+							}
+							if stored {
+								baseOK, baseWhy = true, "the baseline "+loc+" outlives the invocation and is set to the applied definitions"
+							} else {
+								baseWhy = "the baseline " + loc + " is not set to the applied definitions on the path that replaces them"
+							}
+						}
+					}
+				}
+				r.Check(baseOK, "reload.baseline", fname+": baseline of the change detection", w.InstrPos(eqLit.At), baseWhy, baseWhy+": an edit that returns the file to an earlier content is reported as 'no change' and never applied (jobs accepted afterwards keep the previous definitions, limits included)")
 			}
 		}
 		r.Check(sawUnequal, "reload.on-change", fname+": an unequal path exists", w.Pos(fn.Pos()), "present", "no path tests Equals")
